@@ -32,7 +32,7 @@ VARIANTS = [
     {"model_key": "hertz_pyr3s", "method": "nelder",
      "method_kws": {"max_nfev": 60}},
     {"model_key": "hertz_para", "optimal_fit_edelta": True,
-     "optimal_fit_num_samples": 6},
+     "optimal_fit_num_samples": 7},
     # numpy scalars in a range (e.g. taken from an array)
     {"model_key": "hertz_para", "range_x": [-5e-7, 1e-6],
      "__np__": ["range_x"]},
